@@ -1,26 +1,55 @@
 use syn::visit::Visit;
 use syn::spanned::Spanned;
-struct V { out: Vec<String> }
-impl<'ast> Visit<'ast> for V {
-    fn visit_impl_item_fn(&mut self, f: &'ast syn::ImplItemFn) {
-        let s = f.span(); let b = f.block.span();
-        self.out.push(format!("fn {} item {:?}-{:?} body {:?}", f.sig.ident, s.byte_range(), (), b.byte_range()));
-        syn::visit::visit_impl_item_fn(self, f);
-    }
+use serde_json::json;
+struct V { cur_impl: Option<String>, out: Vec<serde_json::Value> }
+fn ty_name(t: &syn::Type) -> String {
+    match t { syn::Type::Path(p) => p.path.segments.last().map(|s| s.ident.to_string()).unwrap_or_default(), _ => String::new() }
+}
+struct L { loops: Vec<serde_json::Value>, macros: Vec<serde_json::Value> }
+impl<'ast> Visit<'ast> for L {
     fn visit_expr_for_loop(&mut self, l: &'ast syn::ExprForLoop) {
-        self.out.push(format!("  for-loop body at {:?}", l.body.span().byte_range()));
+        self.loops.push(json!({"kind":"for","span":[l.span().byte_range().start,l.span().byte_range().end],"body":[l.body.span().byte_range().start,l.body.span().byte_range().end],"expr":[l.expr.span().byte_range().start,l.expr.span().byte_range().end]}));
         syn::visit::visit_expr_for_loop(self, l);
     }
-    fn visit_stmt_macro(&mut self, m: &'ast syn::StmtMacro) {
-        self.out.push(format!("  stmt-macro {} at {:?}", m.mac.path.segments.last().unwrap().ident, m.span().byte_range()));
+    fn visit_expr_while(&mut self, l: &'ast syn::ExprWhile) {
+        self.loops.push(json!({"kind":"while","body":[l.body.span().byte_range().start,l.body.span().byte_range().end]}));
+        syn::visit::visit_expr_while(self, l);
+    }
+    fn visit_expr_loop(&mut self, l: &'ast syn::ExprLoop) {
+        self.loops.push(json!({"kind":"loop","body":[l.body.span().byte_range().start,l.body.span().byte_range().end]}));
+        syn::visit::visit_expr_loop(self, l);
+    }
+    fn visit_macro(&mut self, m: &'ast syn::Macro) {
+        self.macros.push(json!({"name": m.path.segments.last().unwrap().ident.to_string(), "span":[m.span().byte_range().start,m.span().byte_range().end]}));
+    }
+}
+impl<'ast> Visit<'ast> for V {
+    fn visit_item_impl(&mut self, i: &'ast syn::ItemImpl) {
+        let old = self.cur_impl.take();
+        self.cur_impl = Some(ty_name(&i.self_ty));
+        syn::visit::visit_item_impl(self, i);
+        self.cur_impl = old;
+    }
+    fn visit_impl_item_fn(&mut self, f: &'ast syn::ImplItemFn) {
+        let mut l = L { loops: vec![], macros: vec![] };
+        l.visit_block(&f.block);
+        let r = f.span().byte_range(); let b = f.block.span().byte_range(); let s = f.sig.span().byte_range();
+        self.out.push(json!({"impl": self.cur_impl, "fn": f.sig.ident.to_string(), "item":[r.start,r.end], "sig":[s.start,s.end], "body":[b.start,b.end], "loops": l.loops, "macros": l.macros}));
+    }
+    fn visit_item_struct(&mut self, s: &'ast syn::ItemStruct) {
+        let r = s.span().byte_range();
+        self.out.push(json!({"struct": s.ident.to_string(), "item":[r.start,r.end]}));
+    }
+    fn visit_item_enum(&mut self, s: &'ast syn::ItemEnum) {
+        let r = s.span().byte_range();
+        self.out.push(json!({"enum": s.ident.to_string(), "item":[r.start,r.end]}));
     }
 }
 fn main() {
     let p = std::env::args().nth(1).unwrap();
     let src = std::fs::read_to_string(&p).unwrap();
     let file = syn::parse_file(&src).unwrap();
-    let mut v = V { out: vec![] };
+    let mut v = V { cur_impl: None, out: vec![] };
     v.visit_file(&file);
-    for l in v.out.iter().take(40) { println!("{l}"); }
-    println!("total {}", v.out.len());
+    println!("{}", serde_json::to_string(&v.out).unwrap());
 }
